@@ -196,7 +196,10 @@ pub fn dump_manifest(entry: &Path, out: &mut Dump) {
     let reader = match cp.get_manifest_pack_reader() {
         Ok(Some(r)) => r,
         Ok(None) => {
-            out.push("manifest", Leaf::Absent);
+            // "no pack of this file says it is a manifest": every consumer in jubako
+            // (Container::new, tools::set_location, jbk locate) turns this answer into a Format
+            // error, and so does this dump (it stands for those consumers)
+            out.push("manifest", Leaf::Err("Format:no-manifest-pack".into()));
             return;
         }
         Err(e) => {
